@@ -1007,3 +1007,91 @@ Proof.
   unfold get in E1. destruct (lookup "ConceptNameCodeSequence" a) as [s|]; [|discriminate].
   inversion E1; subst. apply discard_ok in H. destruct H as [n Hn]. eauto.
 Qed.
+
+(* full-strength statements for the code as it is now (asserts = true) *)
+Lemma assert_value_type_errors : forall c a,
+  (lookup "ValueType" a = None -> assert_value_type (class_vt c) a = Err EAttr) /\
+  (forall d, lookup "ValueType" a = Some d -> d <> DStr (vt_str (class_vt c)) ->
+             assert_value_type (class_vt c) a = Err EValue) /\
+  (forall k, lookup "ValueType" a = Some (DStr (vt_str (class_vt c))) ->
+             In k (required c) -> lookup k a = None -> assert_value_type (class_vt c) a = Err EAttr).
+Proof.
+  intros c a. unfold assert_value_type, assert_value_type_in. repeat split.
+  - intros ->. reflexivity.
+  - intros d -> Hd. destruct d; try reflexivity.
+    destruct (String.eqb s (vt_str (class_vt c))) eqn:E; [|reflexivity].
+    apply String.eqb_eq in E. congruence.
+  - intros k -> Hin Hk. rewrite String.eqb_refl. cbn [negb]. rewrite required_total.
+    destruct (forallb (fun k0 => has k0 a) (required c)) eqn:E; [|reflexivity].
+    rewrite forallb_forall in E. specialize (E k Hin). unfold has in E. rewrite Hk in E. discriminate.
+Qed.
+
+Theorem subclass_from_dataset_iff : forall parent a,
+  accept_sub true parent (DSet a) = Ok tt <->
+  (lookup "ValueType" a = Some (DStr (vt_str (class_vt parent))) /\
+   (forall k, In k (required parent) -> lookup k a <> None) /\
+   (exists s n, lookup "ConceptNameCodeSequence" a = Some s /\ code_first s = Ok n) /\
+   match lookup "ContentSequence" a with
+   | None => True
+   | Some (DSeq items) => Forall (fun d => accept None d = Ok tt) items /\
+                          Forall (fun d => rel_present d = Ok tt) items
+   | Some _ => False
+   end).
+Proof.
+  intros parent a. cbn [accept_sub]. rewrite <- and_assoc. rewrite <- assert_value_type_spec.
+  destruct (assert_value_type (class_vt parent) a) as [[]|e] eqn:Ea; cbn [bind];
+    [|split; [discriminate|intros [H _]; discriminate]].
+  apply assert_value_type_spec in Ea. destruct Ea as [Ev _].
+  unfold has. rewrite Ev. cbn [bind]. unfold get.
+  assert (Hk : match sub_kids a with None => Ok tt | Some r => r end = Ok tt <->
+               match lookup "ContentSequence" a with
+               | None => True
+               | Some (DSeq items) => Forall (fun d => accept None d = Ok tt) items /\
+                                      Forall (fun d => rel_present d = Ok tt) items
+               | Some _ => False
+               end).
+  { unfold sub_kids. destruct (lookup "ContentSequence" a) as [v|]; [|tauto].
+    destruct v; try (split; [discriminate|tauto]).
+    rewrite <- !(mapM_unit_ok). rewrite <- !discard_ok.
+    destruct (discard (mapM (accept None) items)) as [[]|]; cbn [bind]; [tauto|].
+    split; [discriminate|intros [H _]; discriminate]. }
+  destruct (lookup "ConceptNameCodeSequence" a) as [s|]; cbn [bind].
+  - destruct (match sub_kids a with None => Ok tt | Some r => r end) as [[]|e]; cbn [bind].
+    + rewrite discard_ok. destruct Hk as [Hk _]. specialize (Hk eq_refl). split.
+      * intros [n Hn]. split; [tauto|]. split; [eauto|exact Hk].
+      * intros [_ [[s' [n [Hs Hn]]] _]]. inversion Hs; subst. eauto.
+    + split; [discriminate|]. intros [_ [_ H]]. apply Hk in H. discriminate.
+  - split; [discriminate|]. intros [_ [[s [n [Hs _]]] _]]. discriminate.
+Qed.
+
+Theorem subclass_from_dataset_rejects : forall parent a,
+  (lookup "ValueType" a = None -> accept_sub true parent (DSet a) = Err EAttr) /\
+  (forall d, lookup "ValueType" a = Some d -> d <> DStr (vt_str (class_vt parent)) ->
+             accept_sub true parent (DSet a) = Err EValue) /\
+  (forall k, lookup "ValueType" a = Some (DStr (vt_str (class_vt parent))) ->
+             In k (required parent) -> lookup k a = None ->
+             accept_sub true parent (DSet a) = Err EAttr) /\
+  (lookup "ValueType" a = Some (DStr (vt_str (class_vt parent))) ->
+   (forall k, In k (required parent) -> lookup k a <> None) ->
+   lookup "ConceptNameCodeSequence" a = None -> accept_sub true parent (DSet a) = Err EAttr).
+Proof.
+  intros parent a. destruct (assert_value_type_errors parent a) as [H1 [H2 H3]]. cbn [accept_sub].
+  repeat split.
+  - intros H. rewrite (H1 H). reflexivity.
+  - intros d Hd Hne. rewrite (H2 d Hd Hne). reflexivity.
+  - intros k Hv Hin Hk. rewrite (H3 k Hv Hin Hk). reflexivity.
+  - intros Hv Hr Hn. rewrite (proj2 (assert_value_type_spec parent a) (conj Hv Hr)). cbn [bind].
+    unfold has. rewrite Hv. cbn [bind]. unfold get. rewrite Hn. reflexivity.
+Qed.
+
+(* the template class accepts whatever its value-type class accepts, provided
+   the concept name is there (it is never optional for them) *)
+Lemma subclass_accepts_parent : forall parent a,
+  accept (Some parent) (DSet a) = Ok tt -> lookup "ConceptNameCodeSequence" a <> None ->
+  accept_sub true parent (DSet a) = Ok tt.
+Proof.
+  intros parent a H Hn. apply from_dataset_accepts_iff in H. destruct H as [Hv [Hr [Hname [Hk _]]]].
+  apply subclass_from_dataset_iff. split; [exact Hv|]. split; [exact Hr|]. split; [|exact Hk].
+  destruct (lookup "ConceptNameCodeSequence" a) as [s|]; [|congruence].
+  destruct Hname as [n Hn']. eauto.
+Qed.
